@@ -120,7 +120,8 @@ def xfmt_cases(draw):
                    windv=[draw(st.sampled_from([1.0, 1.0, 0.95, 1.05, 1.1])) for _ in range(3)],
                    ang=[draw(st.sampled_from([0.0, 0.0, -5.0, 3.0])), 0.0, 0.0], u=draw(st.sampled_from([1, 1, 1, 0])))
     return dict(net=net, fmt=draw(st.sampled_from(['raw', 'raw', 'm', 'mpc_export'])), cw=draw(st.sampled_from([1, 2, 3])),
-                cz=draw(st.sampled_from([1, 2])), xf3=xf3)
+                cz=draw(st.sampled_from([1, 2])), xf3=xf3,
+                nomv=draw(st.sampled_from([None, None, (13.2 / 13.8, 1.05), (1.0, 0.96), (1.04, 1.0)])))
 
 
 def xfmt_case(ctx, c):
@@ -175,7 +176,9 @@ def xfmt_case(ctx, c):
             nat = net
         ss_nat = build.build_static(nat, rc={'PFlow': dict(report=0, tol=1e-10), 'Bus': dict(flat_start=1)}, permute=False)
         ref_ok, ref_v = solve_loaded(ss_nat)
-        text = rawio.write_raw(net, cw=c['cw'], cz=c['cz'])
+        text = rawio.write_raw(net, cw=c['cw'], cz=c['cz'], nomv=c.get('nomv'))
+        if c.get('nomv') and c['cw'] == 2:
+            ctx.count('raw:cw2_nameplate_voltage')
         net = nat
         path = os.path.join(d, 'g-%d.raw' % os.getpid())
     elif c['fmt'] == 'm':
